@@ -293,6 +293,9 @@ def replay(case_name, training, seed=0, direction="forward", n=1):
                 for bn_, b_ in m.named_buffers():  # training-mode statistics must not drift between evaluations
                     if bn_ in sd0 and b_.shape == sd0[bn_].shape:
                         b_.copy_(sd0[bn_])
+            for mod_ in m.modules():  # a weight cache filled by an earlier evaluation must not survive a parameter change
+                if hasattr(mod_, "cache") and hasattr(mod_.cache, "invalidate"):
+                    mod_.cache.invalidate()
             y, lad = call(x, ctx) if ctx is not None else call(x)
             return (y * wts).sum() + lad.sum()
 
